@@ -464,7 +464,7 @@ func ruleDesugar(p *Prog, r *Report) {
 				continue
 			}
 			if und != "" {
-				bad = append(bad, und+": ["+lf.desc+"] => "+fmt.Sprint(lf.cons))
+				bad = append(bad, und+"\x00 ["+lf.desc+"] => "+fmt.Sprint(lf.cons))
 				continue
 			}
 			n++
@@ -477,11 +477,11 @@ func ruleDesugar(p *Prog, r *Report) {
 				}
 			}
 			if len(lowers) != 1 || !sp.lower(lowers[0]) {
-				bad = append(bad, fmt.Sprintf("lower bound %v is not the base [%s]", lowers, lf.desc))
+				bad = append(bad, fmt.Sprintf("lower bound %v is not the base\x00 [%s]", lowers, lf.desc))
 				continue
 			}
 			if fmt.Sprint(uppers) != fmt.Sprint(want) {
-				bad = append(bad, fmt.Sprintf("expands to %v, documented %v [%s]", uppers, want, lf.desc))
+				bad = append(bad, fmt.Sprintf("expands to %v, documented %v\x00 [%s]", uppers, want, lf.desc))
 			}
 		}
 		if len(pairBad) > 0 {
@@ -490,8 +490,21 @@ func ruleDesugar(p *Prog, r *Report) {
 		}
 		switch {
 		case len(bad) > 0:
+			// one finding per distinct failing expansion, so that a recorded finding pins one expansion
+			// and a different wrong expansion of the same shorthand is still reported
 			sort.Strings(bad)
-			r.Bad("R-DESUGAR", key, p.FnPos(fn), fmt.Sprintf("%d of %d abstract worlds: %s", len(bad), len(leaves), bad[0]))
+			bySig := map[string][]string{}
+			var sigs []string
+			for _, b := range bad {
+				sig, rest, _ := strings.Cut(b, "\x00")
+				if _, ok := bySig[sig]; !ok {
+					sigs = append(sigs, sig)
+				}
+				bySig[sig] = append(bySig[sig], rest)
+			}
+			for _, sig := range sigs {
+				r.Bad("R-DESUGAR", key+" :: "+sig, p.FnPos(fn), fmt.Sprintf("%d of %d abstract worlds, e.g.%s", len(bySig[sig]), len(leaves), bySig[sig][0]))
+			}
 		case n == 0:
 			r.Und("R-DESUGAR", key, p.FnPos(fn), "no successful abstract world")
 		default:
